@@ -18,6 +18,31 @@
 #include <dirent.h>
 #include "kit.h"
 
+/* Observability for the map parsers: the sanitizer run-time does not intercept strtoul / strtod, so an over-read that
+ * happens inside them (a parser handing them a pointer past the end of a short field) would go unseen.  These two
+ * definitions take precedence over libc's for calls made by libparsec.so; they first walk the characters the conversion
+ * may consume with ordinary (instrumented) loads, then delegate to the C library.  The walk stops at the first character
+ * that cannot belong to a number, and always at the terminating NUL, so it never reads more of a well-formed string. */
+#include <dlfcn.h>
+static void vf_walk_number(const char *p) {
+    for (;; p++) {
+        volatile char c = *p;                      /* instrumented load: reports heap/stack/global overflow with the caller's frames */
+        if (!((c >= '0' && c <= '9') || (c >= 'a' && c <= 'z') || (c >= 'A' && c <= 'Z') || c == '+' || c == '-' || c == '.' || c == ' ' || c == '\t')) break;
+    }
+}
+unsigned long strtoul(const char *nptr, char **endptr, int base) {
+    static unsigned long (*real)(const char *, char **, int);
+    if (!real) real = (unsigned long (*)(const char *, char **, int))dlsym(RTLD_NEXT, "strtoul");
+    vf_walk_number(nptr);
+    return real(nptr, endptr, base);
+}
+double strtod(const char *nptr, char **endptr) {
+    static double (*real)(const char *, char **);
+    if (!real) real = (double (*)(const char *, char **))dlsym(RTLD_NEXT, "strtod");
+    vf_walk_number(nptr);
+    return real(nptr, endptr);
+}
+
 extern hwloc_cpuset_t parsec_vpmap_get_vp_thread_affinity(int vp, int thread, int *ht);
 extern int parsec_vpmap_get_vp_threads(int vp);
 
